@@ -136,12 +136,12 @@ def classify_cond(c, cls_fns):
             return None
         if neg:
             bv = not bv
-        if d.a[0] == cls_fns.get("is_vowel") and contains_call(d.a[1][0], lambda n: n.endswith("Iterator>::last")):
+        if d.a[0] == cls_fns.get("is_vowel") and contains_call(d.a[1][0], _is_last_char_call):
             return ("vowel", bv)
         if d.a[0] == cls_fns.get("is_kar") and contains_call(d.a[1][0], lambda n: n.endswith("Iterator>::next")):
             return ("kar", bv)
         return None
-    if ty == "char" and contains_call(d, lambda n: n.endswith("Iterator>::last")):
+    if ty == "char" and contains_call(d, _is_last_char_call):
         return ("rmc", vals, allv)
     if ty == "bool" and d.k == "bin" and d.a[0] in ("Eq", "Ne"):
         # base_rmc == 'ৎ' written as a comparison instead of a match arm
@@ -149,7 +149,7 @@ def classify_cond(c, cls_fns):
         ch = y if is_const(y, "char") else (x if is_const(x, "char") else None)
         other = x if ch is y else y
         bv = bool_of((d, vals, allv, ty))
-        if ch is not None and bv is not None and contains_call(other, lambda n: n.endswith("Iterator>::last")) is not None:
+        if ch is not None and bv is not None and contains_call(other, _is_last_char_call) is not None:
             if neg:
                 bv = not bv
             if d.a[0] == "Ne":
@@ -239,6 +239,11 @@ def affine(e, is_word, depth=0):
     return None
 
 
+def _is_last_char_call(n):
+    """`chars().last()` and `chars().next_back()` both give the last character."""
+    return n.endswith("Iterator>::last") or n.endswith("DoubleEndedIterator>::next_back")
+
+
 def driven_ranges(b):
     """[(Range aggregate E, bb)] of the `a..b` ranges a loop of this body runs over: `for i in a..b` (into_iter on the range) or the range
     driven directly by next() (`(a..b).find_map(..)` written out as its loop)."""
@@ -258,6 +263,15 @@ def driven_ranges(b):
 def slice_bounds(s, is_word, depth=0):
     """(lo, hi) affine forms if s is a slice of the word."""
     s = strip_refs(s)
+    if s.k == "field" and str(s.a[1]) in ("0", "1") and strip_refs(s.a[0]).k == "call" and strip_refs(s.a[0]).a[0].endswith("::split_at"):
+        # `word.split_at(i)`: the halves are word[..i] and word[i..]
+        c = strip_refs(s.a[0])
+        if not is_word(peel_conv(c.a[1][0])):
+            return None
+        at = affine(c.a[1][1], is_word, depth + 1)
+        if at is None:
+            return None
+        return ({1: 0}, at) if str(s.a[1]) == "0" else (at, {"LEN": 1})
     if s.k != "call" or "Index<" not in s.a[0] or "for str>::index" not in s.a[0]:
         return None
     base = peel_conv(s.a[1][0])
@@ -473,9 +487,9 @@ def run(ctx):
                         n_skip += 1
                         for (d, vals, allv, ty_, bbx) in conds:
                             d = strip_refs(d)
-                            none_edge = d.k == "discr" and contains_call(d, lambda n: n.endswith("Iterator>::last") or n.endswith("Iterator>::next")) is not None \
+                            none_edge = d.k == "discr" and contains_call(d, lambda n: _is_last_char_call(n) or n.endswith("Iterator>::next")) is not None \
                                 and (vals == (0,) or (vals == "otherwise" and 0 not in allv))
-                            some_edge = d.k == "discr" and contains_call(d, lambda n: n.endswith("Iterator>::last") or n.endswith("Iterator>::next")) is not None \
+                            some_edge = d.k == "discr" and contains_call(d, lambda n: _is_last_char_call(n) or n.endswith("Iterator>::next")) is not None \
                                 and not none_edge
                             if none_edge:
                                 break               # this skip is justified by an empty base / suffix form
